@@ -25,7 +25,7 @@ ARRAY_PARAMS = {"vertices", "faces", "normal", "center"}
 REQ = {
     "len(vertices) tests (shape, >= 3)": lambda s: any(t[0] == "len-of" and "vertices" in t[1] for t in s[1]),
     "duplicate vertices (np.unique)": lambda s: ("ret", "numpy.unique") in s[1],
-    "coplanarity (isclose under planar_tolerance)": lambda s: ("ret", "numpy.isclose") in s[1] and {"_normal", "_vertices"} <= s[3],
+    "coplanarity (isclose under planar_tolerance)": lambda s: (("ret", "numpy.isclose") in s[1] or ("ret", "numpy.allclose") in s[1]) and {"_normal", "_vertices"} <= s[3],
     "simple polygon (_is_simple)": lambda s: ("ret", "isect_polygon") in s[1],
     "convex position 2-D (_is_convex)": lambda s: ("ret", "scipy.spatial.ConvexHull") in s[1],
     "convex position 3-D (ConvexHull vertex count)": lambda s: ("ret", "scipy.spatial.ConvexHull") in s[1],
@@ -84,6 +84,26 @@ def run(index, tier="quick", seed=0) -> Result:
         for p in params:
             if p in ARRAY_PARAMS and p not in bad_params:
                 res.ok("CT-1", f"{label}:{p}", sample={"ctor": label, "param": p, "verdict": "copied before any store"})
+        # ---------------------------------------------------------------- CT-6 validation tolerances are relative
+        from ..dimscan import classify_cmp
+        seen6 = set()
+        for e in r["events"]:
+            if e.type == "cmp" and e.form in ("isclose", "allclose"):
+                c6 = classify_cmp(e)
+                if c6 and c6[0] == "in-band" and e.src() not in seen6:
+                    seen6.add(e.src())
+                    res.bad("CT-6", f"{label}:{e.form}:k={c6[1]}:c={c6[2]:g}", e.where(), f"{label}: the validation test `{e.src()[:70]}` applies the absolute "
+                            f"tolerance {c6[2]:g} to a quantity of length degree {c6[1]}: at the small end of the supported scales invalid input "
+                            "(e.g. vertices 10 % out of plane) is accepted")
+        # ---------------------------------------------------------------- CT-5 no parameter is silently ignored
+        import ast as _ast
+        read = {x.id for x in _ast.walk(init.node) if isinstance(x, _ast.Name) and isinstance(x.ctx, _ast.Load)}
+        for p_ in params:
+            if p_ not in read:
+                res.bad("CT-5", f"{label}:{p_}:ignored", f"{init.file}:{init.lineno}", f"{label} accepts `{p_}` but never reads it: the caller's "
+                        f"{p_} is silently replaced by a default (no validation, no effect on the shape)")
+            else:
+                res.ok("CT-5", f"{label}:{p_}", nontrivial=False)
         # ---------------------------------------------------------------- CT-2 validation must-pass-through
         exits = [s.comp[tp.name] for (_v, s, _n) in r["returns"]]
         if not exits:
